@@ -541,3 +541,83 @@ func use(a *model.M, b *lib.M) {
 }
 `}}}}}
 }
+
+// SameName: two declaring packages with the same package NAME (model) and opposite annotations on
+// items of the same names, one importing the other (so that the analysis order is fixed), and
+// three consumers: of the first only, of the second only, of both. Anything keyed by package name
+// instead of import path mixes the two up.
+func SameName() *prog.Program {
+	s1 := prog.Pkg{Path: "ex.com/m/s1/model", Files: []prog.File{{Name: "m.go", Src: `package model
+
+// T is immutable and constructor-restricted here.
+// @immutable
+// @constructor New
+type T struct {
+	F int
+	// @mutable
+	M int
+}
+
+func New() *T { return &T{} }
+
+// Probe is test-only here.
+// @testonly
+func Probe() int { return 0 }
+
+func Keep() int { return 0 }
+
+// Only is restricted here.
+// @packageonly nowhere
+func Only() int { return 0 }
+
+func Free() int { return 0 }
+`}}}
+	s2 := prog.Pkg{Path: "ex.com/m/s2/model", Files: []prog.File{{Name: "m.go", Src: `package model
+
+import m1 "ex.com/m/s1/model"
+
+var _ = m1.Keep
+
+// T is an ordinary struct here.
+type T struct {
+	F int
+	M int
+}
+
+func New() *T { return &T{} }
+
+func Probe() int { return 0 }
+
+// Keep is test-only here.
+// @testonly
+func Keep() int { return 0 }
+
+func Only() int { return 0 }
+
+// Free is restricted here.
+// @packageonly nowhere
+func Free() int { return 0 }
+`}}}
+	use := func(q string, first bool) string {
+		w := func(codes string, on bool) string {
+			if on {
+				return " // want " + codes
+			}
+			return ""
+		}
+		return "\tfunc(t *" + q + ".T) {\n" +
+			"\t\tt.F = 1" + w("IMM01", first) + "\n" +
+			"\t\tt.M = 1\n" +
+			"\t\t_ = " + q + ".T{}" + w("CTOR01", first) + "\n" +
+			"\t\t" + q + ".Probe()" + w("TONL02", first) + "\n" +
+			"\t\t" + q + ".Keep()" + w("TONL02", !first) + "\n" +
+			"\t\t" + q + ".Only()" + w("PKGO02", first) + "\n" +
+			"\t\t" + q + ".Free()" + w("PKGO02", !first) + "\n" +
+			"\t}(nil)\n"
+	}
+	return &prog.Program{Pkgs: []prog.Pkg{s1, s2,
+		{Path: "ex.com/m/cons1", Files: []prog.File{{Name: "c.go", Src: "package cons1\n\nimport \"ex.com/m/s1/model\"\n\nfunc use() {\n" + use("model", true) + "}\n"}}},
+		{Path: "ex.com/m/cons2", Files: []prog.File{{Name: "c.go", Src: "package cons2\n\nimport \"ex.com/m/s2/model\"\n\nfunc use() {\n" + use("model", false) + "}\n"}}},
+		{Path: "ex.com/m/cons12", Files: []prog.File{{Name: "c.go", Src: "package cons12\n\nimport (\n\tm1 \"ex.com/m/s1/model\"\n\tm2 \"ex.com/m/s2/model\"\n)\n\nfunc use() {\n" + use("m2", false) + use("m1", true) + "}\n"}}},
+	}}
+}
